@@ -4,6 +4,7 @@ import CallbagModel.Closed.TakePipe
 import CallbagModel.Inv.ComposeClosed
 import CallbagModel.Inv.ComposeComplete
 import CallbagModel.Closed.Linear
+import CallbagModel.Closed.Prog
 /-!
 # C06 — iterable programming: pull pipelines compute the corresponding list function
 
@@ -169,5 +170,24 @@ theorem C06_every_linear_program (xs : List Int) (ss : List Closed.Stg) (hpos : 
       BasicSafe s ∧ applied s.tr <+: listSem (Closed.chainPipe xs ss) ∧
       (s.stack = [] → s.tr ≠ [] → applied s.tr = listSem (Closed.chainPipe xs ss)) :=
   Closed.linear_correct xs ss hpos
+
+/-! ## every program of sources, unary stages and `concat!` — quantified over the syntax, for the machines the check runs
+
+`Closed.Prog` (`Closed/ProgDef.lean`, shared with the driver): `src xs | stage s p | concat p q`; `Prog.toM`: stages composed, the two
+members of a `concat!` PLUGGED into the slots of the binary concat machine (`Ops/Plug.lean`).  The proof (`Inv/PlugSafe.lean`,
+`Inv/PlugConcat.lean`) is the assume–guarantee projection for `plug` with traces, four small-step invariants of `concat`, and a head
+specification strengthened to every environment turn and to "no Error" (`HeadOkT`: plain `HeadOk` does not compose through `concat!` —
+a member may still be inside its own terminal delivery when the next member starts, and a head that ends with an Error makes
+`concat!` skip the rest).  n-ary `concat!` as ONE machine (n ≥ 3) and `flatten` are not covered by a theorem (comparison only). -/
+
+theorem C06_every_program_with_concat (p : Closed.Prog) (hpos : p.takesPos) :
+    ∀ s, SReach (Closed.thenM p.toM Closed.forEachM).M s →
+      BasicSafe s ∧ applied s.tr <+: listSem p.toPipe ∧ (s.stack = [] → s.tr ≠ [] → applied s.tr = listSem p.toPipe) :=
+  Closed.prog_correct p hpos
+
+/-- … and it is fully safe (both monitor layers: C04, C05) -/
+theorem C06_every_program_with_concat_safe (p : Closed.Prog) (hpos : p.takesPos) :
+    ∀ s, SReach (Closed.thenM p.toM Closed.forEachM).M s → Safe s ∧ SafeFor 4 s ∧ SafeFor 5 s :=
+  Closed.prog_safe p hpos
 
 end Cb.Thm
